@@ -22,7 +22,11 @@ def sh(cmd, **kw):
 
 def props_all():
     m = json.load(open(os.path.join(VERIF, "MANIFEST.json")))
-    return [c["property_id"] for c in m["checks"]]
+    ps = [c["property_id"] for c in m["checks"]]
+    only = os.environ.get("T38_PROPS")  # e.g. T38_PROPS=C06,C10 restricts the neutral run to these checks
+    if only:
+        ps = [p for p in ps if p in only.split(",")]
+    return ps
 
 BIN = None  # private build of the checker: edits under t38check/ during a run do not disturb it
 
